@@ -543,17 +543,37 @@ pub fn check_c12(run: &mut Run, id: &str, c: &Case, d: Derived, o: &Obs) {
         let hits = HIT_IDX[mode];
         let psum: u64 = hits.iter().map(|&i| u64::from(prov(i).unwrap_or(0))).sum::<u64>() + u64::from(m_given);
         let total: u64 = hits.iter().map(|&i| u64::from(s[i])).sum::<u64>() + u64::from(s[mi]);
-        if accepted && psum <= u64::from(j) && total != u64::from(j) {
+        // mania: the sum clause, idempotence and "kept" for everything but a provided n50 hold whether
+        // or not a candidate was accepted (theorems mania_sum_eq_judgements, mania_provided_kept,
+        // mania_gen_idempotent): the initial `best` of the nested search is itself consistent
+        let mania = c.mode == MANIA;
+        if (accepted || mania) && psum <= u64::from(j) && total != u64::from(j) {
             run.fail("oracle:sum-differs-from-judgements", class, id, format!("hit results + misses = {} != {}; state {}", total, j, show_state(c.mode, &s)), repro());
         }
         let all_given = hits.iter().all(|&i| prov(i).is_some());
         let fits = m_given <= miss_cap && psum <= u64::from(j) && (!all_given || psum == u64::from(j));
-        if accepted && fits {
+        if fits {
             for &i in hits.iter().chain(std::iter::once(&mi)) {
                 if let Some(v) = prov(i) {
+                    // index 4 of mania = n50: the only result whose being kept needs `accepted`
+                    let needs_accepted = !mania || i == 4;
                     if s[i] != v {
-                        run.fail("oracle:provided-result-not-kept", class, id, format!("{} given as {}, generated {}", FIELD_NAMES[mode][i], v, show_state(c.mode, &s)), repro());
+                        if accepted || !needs_accepted {
+                            run.fail("oracle:provided-result-not-kept", class, id, format!("{} given as {}, generated {}", FIELD_NAMES[mode][i], v, show_state(c.mode, &s)), repro());
+                        } else if mania {
+                            // replay of the Lean witness `mania_n50_kept_needs_accepted`
+                            run.count("observation: mania accuracy(NaN) -> a provided n50 is overwritten by the initial best");
+                        }
                     }
+                }
+            }
+        }
+        if mania {
+            // every result <= judgements - misses (theorem mania_results_le), accepted or not
+            let cap = j.saturating_sub(s[mi]);
+            for &i in hits {
+                if s[i] > cap {
+                    run.fail("oracle:result-exceeds-remaining", class, id, format!("{} = {} > {}; state {}", FIELD_NAMES[mode][i], s[i], cap, show_state(c.mode, &s)), repro());
                 }
             }
         }
@@ -573,7 +593,8 @@ pub fn check_c12(run: &mut Run, id: &str, c: &Case, d: Derived, o: &Obs) {
         }
     }
     // idempotence and calculate() == state(generated).calculate()
-    let nan = c.acc.is_some_and(f64::is_nan);
+    // mania is idempotent unconditionally (theorem mania_gen_idempotent), so NaN is not exempted there
+    let nan = c.acc.is_some_and(f64::is_nan) && c.mode != MANIA;
     if nan {
         run.count("nan-accuracy (outside the documented domain: idempotence not required)");
         if o.s2.as_ref().ok() != Some(&s) {
